@@ -302,7 +302,7 @@ class BaseProject(object, metaclass=ABCMeta):
 
         self.simulation_mode = SimulationMode.FORWARD
 
-        self.absence_time_list = absence_time_list
+        self.absence_time_list = list(absence_time_list)
 
         self.perform_auto_task_while_absence_time = perform_auto_task_while_absence_time
 
